@@ -49,4 +49,5 @@ pub mod c16_conversions;
 pub mod c17_threads;
 pub mod c18_distance_matrix;
 pub mod c20_eq_ord_hash;
+pub mod c99_probe;
 pub mod c19_predecessor_tree;
